@@ -271,10 +271,256 @@ pub fn bit_cases(ctx: &Ctx, out: &mut Vec<Case>) {
     }
 }
 
+fn rand_below(rng: &mut impl Rng, bound: &BigUint) -> BigUint {
+    // uniform enough for testing: 320 random bits reduced
+    let mut bytes = [0u8; 40];
+    rng.fill(&mut bytes[..]);
+    BigUint::from_bytes_le(&bytes) % bound
+}
+
+/// A value below `bound` from the boundary set {0, 1, bound-1, bound/2, random}.
+fn pick_below(rng: &mut impl Rng, bound: &BigUint) -> BigUint {
+    if *bound == BigUint::from(0u8) {
+        return BigUint::from(0u8);
+    }
+    match rng.gen_range(0..6) {
+        0 => BigUint::from(0u8),
+        1 => BigUint::from(1u8) % bound,
+        2 => bound - 1u8,
+        3 => bound / 2u8,
+        _ => rand_below(rng, bound),
+    }
+}
+
+fn pow2(k: usize) -> BigUint {
+    BigUint::from(1u8) << k
+}
+
+fn nd(mut c: Case) -> Case {
+    c.deterministic = false;
+    c
+}
+
+/// Configurations (pow2range columns, max_bit_len).
+pub fn configs(ctx: &Ctx) -> Vec<Params> {
+    if ctx.quick() {
+        vec![p(4, 8), p(1, 8), p(2, 9), p(3, 10)]
+    } else {
+        vec![p(4, 8), p(1, 8), p(2, 8), p(3, 8), p(2, 9), p(3, 10), p(4, 12), p(1, 16), p(4, 15)]
+    }
+}
+
+/// pow2range / core decomposition / range checks / comparisons / decompositions.
+pub fn decomp_cases(ctx: &Ctx, out: &mut Vec<Case>) {
+    let mut rng = ctx.rng("decomp");
+    let pm = modulus();
+    for d in configs(ctx) {
+        let mbl = d.max_bit_len;
+        // pow2range assertions on lists of every length
+        for len in 0..=(if ctx.quick() { 6 } else { 10 }) {
+            let n = rng.gen_range(0..=mbl);
+            let mut o = ins(len);
+            o.push(op("rc", vec![Vs((0..len).collect()), N(n as u64)]));
+            let inputs: Vec<F> = (0..len).map(|_| big_fe(&pick_below(&mut rng, &pow2(n)))).collect();
+            out.push(case("rc", d.clone(), o, inputs, len));
+        }
+        // assign_less_than_pow2 / assert_less_than_pow2 for bit lengths 0..=254
+        let ks: Vec<usize> = if ctx.quick() {
+            let mut v: Vec<usize> = vec![0, 1, 2, 7, 8, 9, 15, 16, 17, 31, 32, 33, 63, 64, 65, 127, 128, 253, 254];
+            for _ in 0..6 {
+                v.push(rng.gen_range(0..255));
+            }
+            v
+        } else {
+            (0..255).collect()
+        };
+        for &k in &ks {
+            let x = big_fe(&pick_below(&mut rng, &pow2(k)));
+            out.push(nd(case("altp2", d.clone(), vec![op("altp2", vec![N(k as u64)])], vec![x], 1)));
+            let o = vec![op("in", vec![]), op("asltp2", vec![V(0), N(k as u64)])];
+            out.push(case("asltp2", d.clone(), o, vec![x], 1));
+        }
+        // decompose_fixed_limb_size
+        let n_dfl = if ctx.quick() { 10 } else { 60 };
+        for _ in 0..n_dfl {
+            let limb = rng.gen_range(1..=(mbl + 6).min(40));
+            let top = if rng.gen_bool(0.3) { 254 } else { 70 };
+            let bitlen = rng.gen_range(0..=top);
+            let x = big_fe(&pick_below(&mut rng, &pow2(bitlen)));
+            let o = vec![op("in", vec![]), op("dfl", vec![V(0), N(bitlen as u64), N(limb as u64)])];
+            out.push(case("dfl", d.clone(), o, vec![x], 1));
+        }
+        // assign_many_small and the typed bulk assignments
+        for len in 0..=(if ctx.quick() { 5 } else { 9 }) {
+            let k = rng.gen_range(0..=8usize);
+            let inputs: Vec<F> = (0..len).map(|_| big_fe(&pick_below(&mut rng, &pow2(k)))).collect();
+            out.push(nd(case("ams", d.clone(), vec![op("ams", vec![N(len as u64), N(k as u64)])], inputs, 1)));
+            let inputs: Vec<F> = (0..len).map(|_| F::from(rng.gen_range(0..2u64))).collect();
+            out.push(nd(case("inbmany", d.clone(), vec![op("inbmany", vec![N(len as u64)])], inputs, 1)));
+            let inputs: Vec<F> = (0..len).map(|_| F::from(rng.gen_range(0..256u64))).collect();
+            out.push(nd(case("inymany", d.clone(), vec![op("inymany", vec![N(len as u64)])], inputs, 1)));
+            let inputs: Vec<F> = (0..len).map(|_| rand_fe(&mut rng)).collect();
+            out.push(nd(case("inmany", d.clone(), vec![op("inmany", vec![N(len as u64)])], inputs, 1)));
+        }
+        // assert_lower_than_fixed / assign_lower_than_fixed: powers of two and other bounds
+        let n_alf = if ctx.quick() { 8 } else { 40 };
+        for i in 0..n_alf {
+            let bound: BigUint = match i % 5 {
+                0 => pow2(rng.gen_range(0..254)),
+                1 => pow2(rng.gen_range(1..254)) + 1u8,
+                2 => pow2(rng.gen_range(2..254)) - 1u8,
+                3 => (&pm + 1u8) / 2u8,
+                _ => rand_below(&mut rng, &(&pm >> 1)) + 1u8,
+            };
+            let x = big_fe(&pick_below(&mut rng, &bound));
+            let o = vec![op("in", vec![]), op("alf", vec![V(0), Big(bound.clone())])];
+            out.push(case("alf", d.clone(), o, vec![x], 1));
+            out.push(nd(case("inlf", d.clone(), vec![op("inlf", vec![Big(bound.clone())])], vec![x], 1)));
+            // a second, weaker assertion on the same cell is answered from the bound cache
+            let o = vec![
+                op("in", vec![]),
+                op("alf", vec![V(0), Big(bound.clone())]),
+                op("alf", vec![V(0), Big(&bound + 5u8)]),
+            ];
+            out.push(case("alf2", d.clone(), o, vec![x], 1));
+        }
+        // comparisons of bounded values: equal, adjacent, extreme operands
+        let n_cmp = if ctx.quick() { 6 } else { 30 };
+        for i in 0..n_cmp {
+            let (bx, by) = match i % 3 {
+                0 => (8usize, 8usize),
+                1 => (rng.gen_range(1..=253), rng.gen_range(1..=253)),
+                _ => (253, 253),
+            };
+            let xb = pick_below(&mut rng, &pow2(bx));
+            let yb = match rng.gen_range(0..5) {
+                0 => xb.clone() % pow2(by),
+                1 => (&xb + 1u8) % pow2(by),
+                2 => if xb > BigUint::from(0u8) { (&xb - 1u8) % pow2(by) } else { BigUint::from(0u8) },
+                _ => pick_below(&mut rng, &pow2(by)),
+            };
+            for name in ["lt", "leq", "geq", "gt"] {
+                let o = vec![
+                    op("in", vec![]),
+                    op("in", vec![]),
+                    op("bnd", vec![V(0), N(bx as u64)]),
+                    op("bnd", vec![V(1), N(by as u64)]),
+                    op(name, vec![V(2), V(3)]),
+                ];
+                out.push(case(name, d.clone(), o, vec![big_fe(&xb), big_fe(&yb)], 4));
+            }
+            let cb = match rng.gen_range(0..4) {
+                0 => xb.clone(),
+                1 => &xb + 1u8,
+                2 => pow2(bx) + 3u8,
+                _ => pick_below(&mut rng, &pow2(bx.min(250))),
+            };
+            for name in ["ltf", "leqf", "geqf", "gtf"] {
+                let o = vec![
+                    op("in", vec![]),
+                    op("bnd", vec![V(0), N(bx as u64)]),
+                    op(name, vec![V(1), C(big_fe(&cb))]),
+                ];
+                out.push(case(name, d.clone(), o, vec![big_fe(&xb)], 2));
+            }
+        }
+        // bit / byte / chunk decompositions, sgn0, recompositions
+        let n_dec = if ctx.quick() { 3 } else { 12 };
+        for i in 0..n_dec {
+            let x = match i % 4 {
+                0 => rand_fe(&mut rng),
+                1 => -F::ONE,
+                2 => F::ZERO,
+                _ => big_fe(&((&pm - 1u8) / 2u8)),
+            };
+            // canonical full-width bits / bytes
+            let o = vec![op("in", vec![]), op("bits", vec![V(0), OptN(None), N(1)])];
+            out.push(case("bits_canon", d.clone(), o, vec![x], 1));
+            let o = vec![op("in", vec![]), op("bytes", vec![V(0), OptN(None)])];
+            out.push(case("bytes_full", d.clone(), o, vec![x], 1));
+            let o = vec![op("in", vec![]), op("sgn0", vec![V(0)])];
+            out.push(case("sgn0", d.clone(), o, vec![x], 1));
+            // non-canonical full width: two representations may exist (documented)
+            let o = vec![op("in", vec![]), op("bits", vec![V(0), OptN(None), N(0)])];
+            out.push(nd(case("bits_noncanon", d.clone(), o, vec![x], 1)));
+            // short decompositions
+            let nb = rng.gen_range(0..=64usize);
+            let xs = big_fe(&pick_below(&mut rng, &pow2(nb)));
+            let o = vec![op("in", vec![]), op("bits", vec![V(0), OptN(Some(nb as u64)), N(rng.gen_range(0..2))])];
+            out.push(case("bits", d.clone(), o, vec![xs], 1));
+            let nby = rng.gen_range(0..=31usize);
+            let xs = big_fe(&pick_below(&mut rng, &pow2(8 * nby)));
+            let o = vec![op("in", vec![]), op("bytes", vec![V(0), OptN(Some(nby as u64))])];
+            out.push(case("bytes", d.clone(), o, vec![xs], 1));
+            let per = rng.gen_range(1..=40usize);
+            let nch = rng.gen_range(0..=(200 / per));
+            let xs = big_fe(&pick_below(&mut rng, &pow2(per * nch)));
+            let o = vec![op("in", vec![]), op("chunks", vec![V(0), N(per as u64), OptN(Some(nch as u64))])];
+            out.push(case("chunks", d.clone(), o, vec![xs], 1));
+            // recomposition
+            let nbits = rng.gen_range(0..=20usize);
+            let mut o: Vec<Op> = (0..nbits).map(|_| op("inb", vec![])).collect();
+            o.push(op("frombits", vec![Vs((0..nbits).collect())]));
+            let inputs: Vec<F> = (0..nbits).map(|_| F::from(rng.gen_range(0..2u64))).collect();
+            out.push(case("frombits", d.clone(), o, inputs, nbits));
+            let nbytes = rng.gen_range(0..=9usize);
+            let mut o: Vec<Op> = (0..nbytes).map(|_| op("iny", vec![])).collect();
+            o.push(op("frombytes", vec![Vs((0..nbytes).collect())]));
+            let inputs: Vec<F> = (0..nbytes).map(|_| F::from(rng.gen_range(0..256u64))).collect();
+            out.push(case("frombytes", d.clone(), o, inputs, nbytes));
+            // conversions
+            let o = vec![op("in", vec![]), op("n2y", vec![V(0)]), op("y2n", vec![V(1)]), op("n2y", vec![V(2)])];
+            out.push(case("n2y", d.clone(), o, vec![F::from(rng.gen_range(0..256u64))], 1));
+            let o = vec![op("in", vec![]), op("n2b", vec![V(0)]), op("b2n", vec![V(1)]), op("n2b", vec![V(2)])];
+            out.push(case("n2b2", d.clone(), o, vec![F::from(rng.gen_range(0..2u64))], 1));
+        }
+        // canonicity tests on bit strings
+        let n_can = if ctx.quick() { 4 } else { 16 };
+        for _ in 0..n_can {
+            let len = rng.gen_range(1..=12usize);
+            let v = rng.gen_range(0..(1u64 << len));
+            let bound = match rng.gen_range(0..4) {
+                0 => v,
+                1 => v + 1,
+                2 => 0,
+                _ => rng.gen_range(0..(1u64 << (len + 1))),
+            };
+            let inputs: Vec<F> = (0..len).map(|i| F::from((v >> i) & 1)).collect();
+            for name in ["geqbits", "ltbits"] {
+                let mut o: Vec<Op> = (0..len).map(|_| op("inb", vec![])).collect();
+                o.push(op(name, vec![Vs((0..len).collect()), Big(BigUint::from(bound))]));
+                out.push(case(name, d.clone(), o, inputs.clone(), len));
+            }
+        }
+        // div_rem with a declared dividend bound
+        let n_div = if ctx.quick() { 4 } else { 16 };
+        for _ in 0..n_div {
+            let bbits = rng.gen_range(2..=200usize);
+            let bound = pow2(bbits) - 1u8;
+            let dbits = rng.gen_range(1..bbits);
+            let dv = rand_below(&mut rng, &pow2(dbits)) + 1u8;
+            let x = pick_below(&mut rng, &(&bound + 1u8));
+            let o = vec![op("in", vec![]), op("divrem", vec![V(0), Big(dv), OptBig(Some(bound))])];
+            out.push(case("divrem", d.clone(), o, vec![big_fe(&x)], 1));
+        }
+    }
+    // full-width canonicity of 255-bit strings (is_canonical), default configuration only
+    {
+        let d = p(4, 8);
+        for v in [BigUint::from(0u8), &pm - 1u8, pm.clone(), &pm + 1u8, pow2(255) - 1u8] {
+            let inputs: Vec<F> = (0..255).map(|i| F::from(v.bit(i) as u64)).collect();
+            let mut o: Vec<Op> = vec![op("inbmany", vec![N(255)])];
+            o.push(op("iscanon", vec![Vs((0..255).collect())]));
+            out.push(case("iscanon", d.clone(), o, inputs, 1));
+        }
+    }
+}
+
 pub fn cases(ctx: &Ctx) -> Vec<Case> {
     let mut out = vec![];
     native_cases(ctx, &mut out);
     bit_cases(ctx, &mut out);
+    decomp_cases(ctx, &mut out);
     let _ = F::NUM_BITS;
     out
 }
